@@ -509,6 +509,12 @@ CMP_NAME = {
 }
 
 
+import datetime as _dt  # noqa: E402
+import re as _re_mod  # noqa: E402
+
+_DATA_TYPES = (_dt.datetime, _dt.date, _dt.timedelta, _dt.time, _re_mod.Match)
+_DATA_METHODS = {"total_seconds", "group", "groups", "date", "time", "isoweekday", "weekday", "replace", "timestamp", "start", "end", "span", "astimezone"}
+
 NOT_NONE_OPS = {"str", "repr", "len", "new", "fstr", "format", "int", "float", "bool", "tuple", "list", "set", "dict", "sorted", "frozenset", "not", "slice"}
 
 
@@ -1179,6 +1185,8 @@ class Interp:
             return Sym(("g", f"{base.tag[1]}.{attr}"))
         if isinstance(base, ExcV):
             return Sym(("excattr", attr))
+        if isinstance(base, Const) and isinstance(base.v, _DATA_TYPES) and hasattr(base.v, attr) and not callable(getattr(base.v, attr)):
+            return Const(getattr(base.v, attr))
         if isinstance(base, DictV) or isinstance(base, ListV) or isinstance(base, Const):
             return App("boundmethod", (base, Const(attr)))
         return App("getattr", (base, Const(attr)))
@@ -1684,14 +1692,32 @@ class Interp:
         finally:
             self.call_stack.pop()
             self.depth -= 1
+        wb = self._writeback_params(node, fn, pos[1:] if (f.recv is not None and pos and not _is_static(fn)) else pos)
         res = []
         for c in o.get("return"):
             v = c.env.get("$ret", NONE)
-            res.append((c.with_env(caller_env), v))
+            env2 = caller_env
+            if wb:
+                env2 = dict(caller_env)
+                for pname, cname in wb:
+                    if pname in c.env and isinstance(c.env[pname], (ListV, DictV)) and cname in env2:
+                        env2[cname] = c.env[pname]
+            res.append((c.with_env(env2), v))
         for c in o.get("raise"):
             exc = c.env.get("$exc")
             out.add("raise", c.with_env(caller_env).set("$exc", exc))
         return res
+
+    def _writeback_params(self, call, fn, pos):
+        """Containers passed by name and mutated in place by the callee are visible to the caller (by-reference emulation)."""
+        if not getattr(self.policy, "param_writeback", False) or isinstance(fn, ast.Lambda) or not isinstance(call, ast.Call):
+            return []
+        rebound = {t.id for n in ast.walk(fn) for t in (n.targets if isinstance(n, ast.Assign) else []) if isinstance(t, ast.Name)}
+        pairs = []
+        for p, a in zip(pos, call.args):
+            if isinstance(a, ast.Name) and p.arg not in rebound:
+                pairs.append((p.arg, a.id))
+        return pairs
 
     # -- builtins over abstract values -------------------------------------
     def builtin_call(self, node, fname, fval, args, kwargs, cfg, out):
@@ -1765,6 +1791,29 @@ class Interp:
         if fname in ("ord", "chr", "abs", "int", "float", "repr") and len(args) == 1 and isinstance(args[0], Const) and not kwargs:
             try:
                 return [(cfg, Const({"ord": ord, "chr": chr, "abs": abs, "int": int, "float": float, "repr": repr}[fname](args[0].v)))]
+            except Exception:  # noqa
+                return None
+        if fname in ("re.match", "re.search", "re.split", "re.fullmatch") and len(args) >= 2 and all(isinstance(a, Const) for a in args) and not kwargs:
+            import re as _re
+            r = getattr(_re, fname[3:])(*[a.v for a in args])
+            if isinstance(r, list):
+                return [(cfg, ListV([Const(x) for x in r]))]
+            return [(cfg, Const(r))]
+        if fname in ("math.floor", "math.ceil") and len(args) == 1 and isinstance(args[0], Const):
+            import math as _math
+            return [(cfg, Const(getattr(_math, fname[5:])(args[0].v)))]
+        if fname in ("dt.timedelta", "datetime.timedelta", "timedelta") and all(isinstance(a, Const) for a in args) and all(isinstance(v, Const) for v in kwargs.values()):
+            import datetime as _dtm
+            return [(cfg, Const(_dtm.timedelta(*[a.v for a in args], **{k: v.v for k, v in kwargs.items()})))]
+        if fname in ("dt.datetime", "datetime.datetime", "dt.date") and args and all(isinstance(a, Const) for a in args) and not kwargs:
+            import datetime as _dtm
+            try:
+                return [(cfg, Const((_dtm.date if fname.endswith("date") else _dtm.datetime)(*[a.v for a in args])))]
+            except Exception:  # noqa
+                return None
+        if fname in ("min", "max") and args and all(isinstance(a, Const) for a in args) and not kwargs:
+            try:
+                return [(cfg, Const((min if fname == "min" else max)(*[a.v for a in args])))]
             except Exception:  # noqa
                 return None
         if fname in ("os.path.dirname", "os.path.basename", "os.path.join") and args and all(isinstance(a, Const) and isinstance(a.v, str) for a in args):
@@ -1909,6 +1958,15 @@ class Interp:
         if isinstance(base, Const) and isinstance(base.v, bytes) and meth == "join" and len(args) == 1 and isinstance(args[0], ListV) \
                 and all(isinstance(x, Const) and isinstance(x.v, bytes) for x in args[0].items):
             return [(cfg, Const(base.v.join(x.v for x in args[0].items)))]
+        if isinstance(base, Const) and isinstance(base.v, _DATA_TYPES) and meth in _DATA_METHODS and all(isinstance(a, Const) for a in args) \
+                and all(isinstance(v, Const) for v in kwargs.values()):
+            try:
+                r = getattr(base.v, meth)(*[a.v for a in args], **{k: v.v for k, v in kwargs.items()})
+            except Exception:  # noqa
+                return None
+            if isinstance(r, tuple):
+                return [(cfg, ListV([Const(x) for x in r], "tuple"))]
+            return [(cfg, Const(r))]
         if isinstance(base, Const) and isinstance(base.v, (str, bytes)):
             if all(isinstance(a, Const) for a in args) and not kwargs:
                 try:
